@@ -176,6 +176,163 @@ fn rtype_tag(t: &RecordType) -> u64 {
     }
 }
 
+fn closest_k(case: &Value) -> Value {
+    let keypair = Keypair::ed25519_from_bytes(hexb(&case["self_seed"])).expect("32-byte seed");
+    let self_peer = PeerId::from(keypair.public());
+    let dir = std::env::temp_dir().join(format!(
+        "verif-c11-k-{}-{}",
+        std::process::id(),
+        case["n"].as_u64().unwrap_or(0)
+    ));
+    std::fs::create_dir_all(&dir).expect("temp dir");
+    let rt = tokio::runtime::Builder::new_current_thread()
+        .enable_all()
+        .build()
+        .expect("runtime");
+    let res = rt.block_on(async {
+        let mut builder = NetworkBuilder::new(keypair, true);
+        builder.listen_addr("127.0.0.1:0".parse().expect("socket addr"));
+        let (_network, _events, mut driver) = builder.build_node(dir.clone()).expect("build_node");
+        let maddr = Multiaddr::from_str("/ip4/127.0.0.1/udp/4000/quic-v1").expect("multiaddr");
+        let mut inserted = vec![];
+        for p in peers(&case["table"]) {
+            if hooks::add_peer_to_routing_table(&mut driver, p, maddr.clone()) {
+                inserted.push(p);
+            }
+        }
+        let closest_k = driver.verif_closest_k_value_local_peers();
+        let kad = hooks::closest_local_peers(&mut driver, &NetworkAddress::from_peer(self_peer));
+        json!({
+            "self": hex::encode(self_peer.to_bytes()),
+            "inserted": peers_out(&inserted),
+            "closest_k": peers_out(&closest_k),
+            "kad": peers_out(&kad),
+        })
+    });
+    drop(rt);
+    let _ = std::fs::remove_dir_all(&dir);
+    res
+}
+
+fn store_hist(case: &Value) -> Value {
+    use ant_networking::verif_hooks::record_store as rs;
+    use ant_networking::verif_hooks::{LocalSwarmCmd, NodeRecordStoreConfig, UnifiedRecordStore};
+    use libp2p::kad::store::RecordStore;
+    use libp2p::kad::Record;
+    let me = peer(&case["self"]);
+    let root = std::env::temp_dir().join(format!(
+        "verif-c11-hist-{}-{}",
+        std::process::id(),
+        case["n"].as_u64().unwrap_or(0)
+    ));
+    let _ = std::fs::remove_dir_all(&root);
+    let storage = root.join("record_store");
+    std::fs::create_dir_all(&storage).expect("temp dir");
+    let seed: [u8; 16] = {
+        let mut s = [0u8; 16];
+        let b = me.to_bytes();
+        for (i, x) in b.iter().take(16).enumerate() {
+            s[i] = *x;
+        }
+        s
+    };
+    let max_records = case["max"].as_u64().expect("max") as usize;
+    let config = || NodeRecordStoreConfig {
+        storage_dir: storage.clone(),
+        historic_quote_dir: root.clone(),
+        max_records,
+        encryption_seed: seed,
+        ..Default::default()
+    };
+    let rt = tokio::runtime::Builder::new_current_thread()
+        .enable_all()
+        .build()
+        .expect("runtime");
+    let (tx_evt, _rx_evt) = tokio::sync::mpsc::channel(10_000);
+    let (tx_cmd, mut rx_cmd) = tokio::sync::mpsc::channel::<LocalSwarmCmd>(10_000);
+    let open = |rt: &tokio::runtime::Runtime| -> UnifiedRecordStore {
+        let (cfg, e, c) = (config(), tx_evt.clone(), tx_cmd.clone());
+        rt.block_on(async move { rs::new_node_store(me, cfg, e, c) })
+    };
+    let dump = |s: &UnifiedRecordStore| -> (Value, Value, Value) {
+        let mut held: Vec<String> = rs::record_addresses_ref(s)
+            .iter()
+            .map(|(k, _, _)| hex::encode(k.as_ref()))
+            .collect();
+        held.sort();
+        let far = rs::farthest_record(s).map(|(k, d)| json!([hex::encode(k.as_ref()), d.to_string()]));
+        let far_key = rs::get_farthest(s).map(|k| hex::encode(k.as_ref()));
+        (json!(held), json!(far), json!(far_key))
+    };
+    // let background tasks (file deletes, command sends) run
+    let settle = |rt: &tokio::runtime::Runtime| {
+        rt.block_on(async {
+            for _ in 0..50 {
+                tokio::task::yield_now().await;
+            }
+        })
+    };
+    let mut store = open(&rt);
+    let mut steps = vec![];
+    for st in case["steps"].as_array().expect("steps") {
+        let (pre_held, pre_far, _) = dump(&store);
+        let mut res = json!(0);
+        match st["s"].as_str().expect("step kind") {
+            "put" => {
+                let key = RecordKey::new(&hexb(&st["key"]));
+                // a chunk record: header + serialised payload (restart re-reads the record kind from it)
+                let payload = vec![st["val"].as_u64().unwrap_or(0) as u8; 40];
+                let value = ant_protocol::storage::try_serialize_record(
+                    &payload,
+                    ant_protocol::storage::RecordKind::Chunk,
+                )
+                .expect("serialise")
+                .to_vec();
+                let rec = Record { key, value, publisher: None, expires: None };
+                let r = rt.block_on(async { rs::put_verified(&mut store, rec, RecordType::Chunk) });
+                match r {
+                    Ok(()) => {
+                        // the driver's part: the write reports back, the key is marked as stored
+                        let n = rt.block_on(async {
+                            tokio::time::timeout(std::time::Duration::from_secs(5), rx_cmd.recv()).await
+                        });
+                        match n {
+                            Ok(Some(LocalSwarmCmd::AddLocalRecordAsStored { key, record_type })) => {
+                                rt.block_on(async { rs::mark_as_stored(&mut store, key, record_type) })
+                            }
+                            Ok(Some(LocalSwarmCmd::RemoveFailedLocalRecord { key })) => {
+                                rt.block_on(async { store.remove(&key) });
+                                res = json!(7);
+                            }
+                            _ => res = json!(8),
+                        }
+                    }
+                    Err(libp2p::kad::store::Error::MaxRecords) => res = json!(1),
+                    Err(e) => res = json!(format!("{e:?}")),
+                }
+            }
+            "remove" => {
+                let key = RecordKey::new(&hexb(&st["key"]));
+                rt.block_on(async { store.remove(&key) });
+            }
+            "restart" => {
+                settle(&rt);
+                drop(store);
+                settle(&rt);
+                store = open(&rt);
+            }
+            other => panic!("unknown step {other}"),
+        }
+        settle(&rt);
+        let (held, far, far_key) = dump(&store);
+        steps.push(json!({"res": res, "pre_held": pre_held, "pre_far": pre_far, "held": held, "far": far, "far_key": far_key}));
+    }
+    drop(store);
+    drop(rt);
+    let _ = std::fs::remove_dir_all(&root);
+    json!({"steps": steps})
+}
+
 fn close_peers(case: &Value) -> Value {
     use ant_networking::verif_hooks::NetworkSwarmCmd;
     use ant_networking::Network;
@@ -432,6 +589,10 @@ fn run(case: &Value) -> Value {
         // handle whose swarm side answers the closest-peers query with the given list ("self" entries
         // stand for the handle's own peer id)
         "close_peers" => close_peers(case),
+        // SwarmDriver::get_closest_k_value_local_peers over a real routing table filled in the given order
+        "closest_k" => closest_k(case),
+        // admission / eviction history of a real NodeRecordStore with a small capacity, incl. restarts
+        "store_hist" => store_hist(case),
         "store_count" => {
             let dir = std::env::temp_dir().join(format!(
                 "verif-c11-store-{}-{}",
